@@ -258,6 +258,13 @@ def corpus(ctx, rng):
     ser = next(a for a in big[3] if a["resname"] == "SER")
     jobs.append({"what": "520 residues protonated, one HG deleted, assign-only ff=AMBER", "text": gen.pdb_text(big), "args": ["--ff=AMBER", "--assign-only"],
                  "prerun": ["--ff=AMBER", "--noopt", "--nodebump"], "rename": {}, "delete": [["D", ser["resseq"], "HG"]], "truth": truth(big), "strands": []})
+    # protonated strands re-assigned with a terminal hydroxyl hydrogen deleted: the defect sits on a strand end only; a run that
+    # cannot give the strand its integral charge must not succeed (when it is refused there is nothing to judge)
+    for kind, seq, (rs, hn) in (("D", "ACGT", (1, "H5T")), ("D", "ACGT", (4, "H3T")), ("R", "ACGU", (1, "H5T"))):
+        at = gen.nucleic(seq, kind)
+        jobs.append({"what": f"{'DNA' if kind == 'D' else 'RNA'} {seq} protonated, {hn} of nucleotide {rs} deleted, assign-only ff=AMBER",
+                     "text": gen.pdb_text([at]), "args": ["--ff=AMBER", "--assign-only"], "prerun": ["--ff=AMBER", "--noopt", "--nodebump"],
+                     "rename": {}, "delete": [["N", rs, hn]], "truth": truth([at]), "strands": [{"chain": "N", "len": len(seq)}]})
     # many chains without chain identifiers (TER-separated)
     for nch in ([5, 63] if ctx.quick else [2, 5, 26, 52, 62, 63, 64, 70]):
         for oxt in (True, False):
